@@ -253,7 +253,7 @@ def _irs_past_end(ev):
 def _irs_country_order(ev):
     if _fl(ev) == "irs":
         for a, p in ev["obs"]["prof"].items():
-            if len(set(p["cs"])) >= 2:
+            if p["cs"] != p["cs"][::-1]:
                 p["cs"].reverse()
                 return ev
     return None
@@ -282,7 +282,7 @@ def _refused_with_effect(ev):
     # so that every set-level answer stays right)
     if ev["res"] == "fail" and _fl(ev) == "modules":
         for h, l in ev["obs"]["mods"].items():
-            if len(l) >= 2:
+            if l != l[::-1]:
                 l.reverse()
                 return ev
     return None
